@@ -1,0 +1,48 @@
+//go:build verif
+
+// Contracts for the Fiat-Shamir transcript (comment-only). The map of challenges and the lists of bound
+// values are not modelled (every lookup yields an arbitrary challenge record), so the clauses below are the
+// ones that hold for every transcript content: guards, error paths and ownership (no aliasing in or out).
+
+package fiatshamir
+
+//@ func (hash.Hash).Reset
+//@ assumed interface hash.Hash: Reset touches only the hash object
+//@ end
+
+//@ func (hash.Hash).Write
+//@ assumed interface hash.Hash (io.Writer): Write reads p, does not retain it and touches only the hash object
+//@ end
+
+//@ func (hash.Hash).Sum
+//@ assumed interface hash.Hash: Sum(nil) returns a newly allocated slice holding the digest
+//@ end
+
+//@ func Transcript.Bind
+//@ option nomerge
+//@ cut after def ok #1
+//@ + ghost found = ok
+//@ + ghost computed = currentChallenge.isComputed
+//@ ensures[unknown] !found ==> result == errChallengeNotFound
+//@ ensures[computed] found && computed ==> result == errChallengeAlreadyComputed
+//@ ensures[accepted] found && !computed ==> isnil(result)
+//@ ensures[no-alias-in] noescape(bValue)
+//@ modifies t, t.challenges
+//@ end
+
+//@ func Transcript.ComputeChallenge
+//@ option nomerge
+//@ nullable t.previous
+//@ cut after def ok #1
+//@ + ghost found = ok
+//@ + ghost computed = challenge.isComputed
+//@ + ghost pos = challenge.position
+//@ + ghost prevnil = isnil(t.previous)
+//@ + ghost prevpos = t.previous.position
+//@ loop 0
+//@ + invariant[index] -1 <= rangeindex && rangeindex < len(challenge.bindings)
+//@ ensures[unknown] !found ==> result1 == errChallengeNotFound && len(result0) == 0
+//@ ensures[fresh-result] isnil(result1) ==> fresh(result0)
+//@ ensures[order] isnil(result1) && found && !computed && pos > 0 ==> !prevnil && prevpos == pos - 1
+//@ modifies t, t.challenges
+//@ end
